@@ -608,6 +608,73 @@ def _clear_check(fns, sel, title):
     return x
 
 
+def _clear_id_check(fns, sel, title):
+    base = _clear_check(fns, sel, title)
+    cf = base.fn
+
+    def runner(timeout):
+        ex = symex.Executor([cf], [])
+        old = Tup([Obj("OldActive"), Obj("OldSealed"), Obj("OldVersion"), ex.sym("old_seqno", 64)])
+        old_id = ex.sym("old_version_id", 64)
+        tree = Obj("Tree")
+
+        class TreeRec(Obj):
+            def field(self, ex2, i, ty):
+                return Obj("TreeField", i=i, ty=ty)
+        tree = TreeRec("Tree")
+
+        def opq(kind):
+            return lambda ex2, env, b, a, p, d: _one(Obj(kind, args=a))
+
+        def m_version_id(ex2, env, b, a, p, d):
+            return _one(old_id)
+        ex.models = [(re.compile(r), h) for r, h in [
+            (r"^<SuperVersion as Clone>::clone$", lambda ex2, env, b, a, p, d: _one(Tup(list(old.items)))),
+            (r"^<(Tree|BlobTree) as Deref>::deref$", lambda ex2, env, b, a, p, d: _one(tree)),
+            (r"^SequenceNumberCounter::next$", opq("FreshId")), (r"^Memtable::new$", opq("FreshMemtable")),
+            (r"^Arc::<Memtable>::new$", lambda ex2, env, b, a, p, d: _one(a[0])),
+            (r"^<Arc<SealedMemtables> as Default>::default$", opq("EmptySealed")), (r"^<SealedMemtables as Default>::default$", opq("EmptySealed")),
+            (r"^Arc::<SealedMemtables>::new$", lambda ex2, env, b, a, p, d: _one(a[0])),
+            (r"^Version::id$", m_version_id), (r"^<(Tree|BlobTree) as AbstractTree>::tree_type$", opq("TreeType")),
+            (r"^Version::new$", opq("NewVersion")),
+        ]]
+        res = []
+        ex.run(cf, [Closure(cf.closure_span(), [Ref(tree)]), Ref(old)], symex.Path(), lambda ret, env, path: res.append((ret, path)))
+        out = {"nodes": len(res), "steps_bound": 1, "assertions": 0, "violation_disjuncts": 0, "z3_s": 0.0, "queries": 0, "paths": len(res), "feasible_paths": len(res),
+               "assumptions": sorted(ex.assumptions), "solvers": "cvc5 1.0 --solve-bv-as-int=sum (deciding) ; z3 5.1.0 (cross-check)"}
+        qs = []
+        for k, (ret, path) in enumerate(res):
+            if not (isinstance(ret, Enum) and ret.variant == "Ok"):
+                raise MirError("clear closure does not return Ok")
+            nv = ret.payload[0].items[2]
+            if not (isinstance(nv, Obj) and nv.kind == "NewVersion" and isinstance(nv.args[0], BV)):
+                raise MirError("clear: the new version is not Version::new(<integer id>, ..)")
+            qs.append(("id:%d" % k, path.pc + ["(not (= %s (bvadd old_version_id (_ bv1 64))))" % nv.args[0].t]))
+        r1, dt, raw = symex.solve_batch(ex.decls, qs, "cvc5int", timeout)
+        r2, dt2, raw2 = symex.solve_batch(ex.decls, qs, "z3new", timeout)
+        out.update(z3_s=round(dt, 2), cvc5_s=round(dt2, 2), queries=len(qs), assertions=sum(len(a) for _, a in qs))
+        if r1 is None or r2 is None or any(r1[t] != r2[t] for t in r1):
+            out.update(verdict="inconclusive", reason="solver: %s" % str(raw)[:200], z3="error")
+            return out
+        bad = [t for t, v in r1.items() if v == "sat"]
+        out["z3"] = out["cvc5"] = "sat" if bad else "unsat"
+        if bad:
+            out.update(verdict="refuted", reason="clear() builds the empty version with an id other than old id + 1 (e.g. the old id itself): persist_version rewrites the live version file in place, a crash before `current` switches leaves it torn",
+                       path=["  closure %s" % cf.name])
+        else:
+            out.update(verdict="proved", reason="")
+        return out
+    x = XCheck(title, cf, runner)
+    x.requires = [("", "", "the empty version gets id = old id + 1")]
+    x.shapes = "n/a (straight-line closure)"
+    return x
+
+
+def clear_version_ids(fns):
+    return [_clear_id_check(fns, r"src/tree/mod\.rs[^>]*>::clear\(", "O5.4c Tree::clear gives the empty version the id old + 1"),
+            _clear_id_check(fns, r"src/blob_tree/mod\.rs[^>]*>::clear\(", "O5.4d BlobTree::clear gives the empty version the id old + 1")]
+
+
 def clear_resets(fns):
     return [_clear_check(fns, r"src/tree/mod\.rs[^>]*>::clear\(", "O15.4a Tree::clear publishes a super version with nothing in it"),
             _clear_check(fns, r"src/blob_tree/mod\.rs[^>]*>::clear\(", "O15.4b BlobTree::clear publishes a super version with nothing in it")]
